@@ -184,8 +184,8 @@ class Describer(actors.Party):
 class C01(Check):
     prop = "C01"
     level = "exploration"
-    quick_runs = 6000
-    thorough_runs = 150000
+    quick_runs = 8000
+    thorough_runs = 200000
     rule = (
         "seeded histories: wild events (instants 1970..2100 at any UTC offset biased to awkward microsecond values, "
         "durations 0..30 d at us granularity, nested unicode/float/null/big-int JSON) inserted singly and in bulk, "
